@@ -20,6 +20,7 @@
 #include "galois/runtime/Context.h"
 #include "galois/substrate/SimpleLock.h"
 #include "galois/substrate/CacheLineStorage.h"
+#include "galois/substrate/Verif.h"
 
 #include <stdio.h>
 
@@ -54,6 +55,7 @@ galois::runtime::LockManagerBase::tryAcquire(
     return NEW_OWNER;
 #else
   if (lockable->owner.try_lock()) {
+    GALOIS_VERIF_POINT(CTX_ACQUIRE_LOCKED);
     lockable->owner.setValue(this);
     return NEW_OWNER;
 #endif
@@ -82,6 +84,7 @@ unsigned galois::runtime::SimpleRuntimeContext::commitIteration() {
     locks              = lockable->next;
     lockable->next     = 0;
     substrate::compilerBarrier();
+    GALOIS_VERIF_POINT(CTX_RELEASE_UNLINKED);
     release(lockable);
     ++numLocks;
   }
